@@ -45,6 +45,7 @@ const (
 	exOwnHelper         // a frame compressed through the session's own wsflate.Helper value (its own compression level)
 	exBadText           // last step only: a text message that ends inside a character; the receiver's read fails, both sides leave
 	exBroadcast         // client only: the message is one slice all sessions of the process share (a broadcast), sent with WriteClientText
+	exCutPing           // last step only: the sender announces a ping of PingLen bytes, sends only a part of the payload and closes its connection; the receiver's read fails, both sides leave
 	exCipher            // client only: header by hand, payload through wsutil.CipherWriter from a buffer the session owns (capacity = a pool class) and keeps
 )
 
@@ -66,7 +67,8 @@ type script struct {
 	Protocols []string
 	Steps     []exchange
 	CloseCode int
-	CloseKind int  // 0 short reason, 1 long reason, 2 invalid code with a long reason, 3 invalid UTF-8 in a long reason, 4 no reason
+	CloseKind int  // 0 short reason, 1 long reason, 2 invalid code with a long reason, 3 invalid UTF-8 in a long reason, 4 no reason, 5 no status code at all (empty close frame)
+	SrvCloses bool // the server starts the closing handshake (the client answers it)
 	WSS       bool // the client first probes a wss:// dial through the default TLS client (the peer never answers)
 	BadReq    int  // > 0: the client sends a request the upgrader refuses (1 no Upgrade header, 2 version 12, 3 POST); the upgrader adds a header of this session to its answer
 	SrvDebug  bool // the server upgrades through the process-wide wsutil.DebugUpgrader value
@@ -162,6 +164,14 @@ func makeScript(seed uint64) *script {
 	}
 	if p.intn(5) == 0 {
 		sc.Steps = append(sc.Steps, exchange{Kind: exBadText, FromCli: p.intn(2) == 0, Text: true, Size: 3 + p.intn(40), Seed: p.next()})
+	}
+	// (Drawn last so that the scripts of earlier versions keep their shape.)
+	if p.intn(4) == 0 {
+		sc.CloseKind = 5
+	}
+	sc.SrvCloses = p.intn(3) == 0
+	if sc.Steps[len(sc.Steps)-1].Kind != exBadText && p.intn(6) == 0 {
+		sc.Steps = append(sc.Steps, exchange{Kind: exCutPing, FromCli: p.intn(2) == 0, PingLen: []int{1, 2, 60, 63, 64, 100, 125}[p.intn(7)], Seed: p.next()})
 	}
 	return sc
 }
@@ -630,6 +640,10 @@ func (s *side) run() {
 			s.badText(i, ex)
 			return
 		}
+		if ex.Kind == exCutPing {
+			s.cutPing(i, ex)
+			return
+		}
 		if ex.FromCli == s.client {
 			if !s.send(i, ex) {
 				return
@@ -645,7 +659,7 @@ func (s *side) run() {
 			s.tr.add("step %d: a buffer the session owns (handed to CipherWriter.Write) was modified later", k.step)
 		}
 	}
-	// Closing handshake: the client starts it.
+	// Closing handshake: the client starts it, or the server (SrvCloses).
 	code, reason := ws.StatusCode(s.sc.CloseCode), "bye"
 	switch s.sc.CloseKind {
 	case 1:
@@ -659,29 +673,61 @@ func (s *side) run() {
 		if code > 1001 {
 			code = 1000
 		}
+	case 5:
+		code, reason = ws.StatusNoStatusRcvd, "" // what the receiver is told about a close without a status code
 	}
-	if s.client {
-		f := ws.NewCloseFrame(ws.NewCloseFrameBody(code, reason))
-		f = ws.MaskFrameInPlace(f)
+	if s.client != s.sc.SrvCloses {
+		// This side starts the closing handshake.
+		body := ws.NewCloseFrameBody(code, reason)
+		if s.sc.CloseKind == 5 {
+			body = nil
+		}
+		f := ws.NewCloseFrame(body)
+		if s.client {
+			f = ws.MaskFrameInPlace(f)
+		}
 		if err := ws.WriteFrame(s.conn, f); err != nil {
 			s.tr.add("close: write: %v", err)
 			return
 		}
-		_, _, err := wsutil.ReadServerData(s.conn)
+		_, _, err := s.readData()
 		s.tr.add("close: %v", err)
 		return
 	}
-	_, _, err := wsutil.ReadClientData(s.conn)
+	_, _, err := s.readData()
 	s.tr.add("close: %v", err)
-	// What the server is told about a valid close is what the client sent
+	// What this side is told about a valid close is what the peer sent
 	// (looked at a little later, like an application that logs it).
-	if k := s.sc.CloseKind; k == 0 || k == 1 || k == 4 {
+	if k := s.sc.CloseKind; k == 0 || k == 1 || k == 4 || k == 5 {
 		pbytes.Put(pbytes.GetLen(100)) // a scheduling point (and some pool traffic) before the look
 		var ce wsutil.ClosedError
 		if !errors.As(err, &ce) || ce.Code != code || ce.Reason != reason {
 			s.tr.add("close: wrong close report: got %v, the client sent code %d and a %d byte reason", err, code, len(reason))
 		}
 	}
+}
+
+// cutPing: the sender's last act is a ping whose payload never arrives in
+// full: it closes its connection in the middle of the frame. The receiver's
+// read helper must fail. Nobody waits for anybody afterwards.
+func (s *side) cutPing(i int, ex exchange) {
+	if ex.FromCli == s.client {
+		h := ws.Header{Fin: true, OpCode: ws.OpPing, Length: int64(ex.PingLen)}
+		part := bytes.Repeat([]byte{byte(ex.Seed)}, int(ex.Seed>>8)%ex.PingLen)
+		if s.client {
+			h.Masked, h.Mask = true, ws.NewMask()
+			ws.Cipher(part, h.Mask, 0)
+		}
+		err := ws.WriteHeader(s.conn, h)
+		if err == nil && len(part) > 0 {
+			_, err = s.conn.Write(part)
+		}
+		s.conn.Close()
+		s.tr.add("step %d: sent %d of %d payload bytes of a ping and closed the connection: %v", i, len(part), ex.PingLen, err)
+		return
+	}
+	_, _, err := s.readData()
+	s.tr.add("step %d recv cut ping: failed=%v eof=%v", i, err != nil, err == io.EOF)
 }
 
 // badText: the sender's text message ends inside a multi-byte character; the
